@@ -52,8 +52,8 @@ use futures_util::Stream;
 use futures_util::future::{self, Either};
 use futures_util::stream::StreamExt;
 use helpers::{
-	build_unsubscribe_message, call_with_timeout, process_batch_response, process_notification,
-	process_single_response, process_subscription_response, stop_subscription,
+	build_unsubscribe_message, process_batch_response, process_notification, process_single_response,
+	process_subscription_response, stop_subscription,
 };
 use http::Extensions;
 use jsonrpsee_types::response::SubscriptionError;
@@ -68,7 +68,7 @@ use tower::layer::util::Identity;
 use self::utils::{InactivityCheck, IntervalStream};
 use super::{
 	FrontToBack, IdKind, MiddlewareBatchResponse, MiddlewareMethodResponse, MiddlewareNotifResponse, RequestIdManager,
-	generate_batch_id_range, subscription_channel,
+	SubscriptionReceiver, generate_batch_id_range, subscription_channel,
 };
 
 pub(crate) type Notification<'a> = jsonrpsee_types::Notification<'a, Option<Box<JsonRawValue>>>;
@@ -490,6 +490,28 @@ impl<L> Client<L> {
 		}
 	}
 
+	/// Hands the registration of a notification handler over to the background task and waits for its answer.
+	async fn register_notification(&self, method: &str) -> Result<(SubscriptionReceiver, String), Error> {
+		let (send_back_tx, send_back_rx) = oneshot::channel();
+		if self
+			.to_back
+			.clone()
+			.send(FrontToBack::RegisterNotification(RegisterNotificationMessage {
+				send_back: send_back_tx,
+				method: method.to_owned(),
+			}))
+			.await
+			.is_err()
+		{
+			return Err(Error::ServiceDisconnect);
+		}
+
+		match send_back_rx.await {
+			Ok(res) => res,
+			Err(_) => Err(Error::ServiceDisconnect),
+		}
+	}
+
 	/// Completes when the client is disconnected or the client's background task encountered an error.
 	/// If the client is already disconnected, the future produced by this method will complete immediately.
 	///
@@ -664,27 +686,9 @@ where
 		N: DeserializeOwned,
 	{
 		async {
-			let (send_back_tx, send_back_rx) = oneshot::channel();
-			if self
-				.to_back
-				.clone()
-				.send(FrontToBack::RegisterNotification(RegisterNotificationMessage {
-					send_back: send_back_tx,
-					method: method.to_owned(),
-				}))
-				.await
-				.is_err()
-			{
-				return Err(self.on_disconnect().await);
-			}
-
-			let res = call_with_timeout(self.request_timeout, send_back_rx).await;
-
-			let (rx, method) = match res {
-				Ok(Ok(val)) => val,
-				Ok(Err(err)) => return Err(err),
-				Err(_) => return Err(self.on_disconnect().await),
-			};
+			// Handing the registration over to the background task, which may be busy, is subject to the
+			// request timeout as well.
+			let (rx, method) = self.run_future_until_timeout(self.register_notification(method)).await?;
 
 			Ok(Subscription::new(self.to_back.clone(), rx, SubscriptionKind::Method(method)))
 		}
